@@ -101,7 +101,7 @@ def step3 (st : DState) (op a b : String) : DState × String :=
       | "sadd" => res { st with s := slistAdd st.s a b } "ok"
       | "sxadd" => res { st with s := slistAdd st.s a b } "ok"
       | "smove_front" => res { st with s := slistMoveFront st.s FUEL a b } "ok"
-      | "sin" => res st (if (slistToList st.s FUEL a).contains b then "1" else "0")
+      | "sin" => res st (if slistIn st.s FUEL a b then "1" else "0")
       | "cpoke_next" => res { st with h := st.h.setNext a b } "ok"
       | "cpoke_prev" => res { st with h := st.h.setPrev a b } "ok"
       | "xpop" => res { st with h := listPop st.h (xObj b) XOFF } "ok"            -- list a, item b
@@ -247,6 +247,7 @@ def stepLine (st : DState) (line : String) : DState × String :=
       | "csize_rev" => res st (toString (dlistSizeReversed st.h FUEL a))
       | "cempty" => res st (if dlistEmpty st.h a then "1" else "0")
       | "ccorrect" => res st (if dlistIsCorrect st.h a then "1" else "0")
+      | "ccorrect_strict" => res st (if dlistIsCorrect st.h a then "1" else "0")
       | "clist" => res st (ids (dlistToList st.h FUEL a))
       | "clist_rev" => res st (ids (dlistToListRev st.h FUEL a))
       | "xnew" => res { st with h := nodeCtor st.h a, alive := a :: st.alive } "ok"
@@ -271,7 +272,8 @@ def stepLine (st : DState) (line : String) : DState × String :=
       | "spop" =>
         let (s', r) := slistPopFirst st.s a
         res { st with s := s' } (match r with | some v => toString v | none => "null")
-      | "ssize" => res st (toString (slistToList st.s FUEL a).length)
+      | "ssize" => res st (toString (slistSize st.s FUEL a))
+      | "sempty" => res st (if slistEmpty st.s a then "1" else "0")
       | "slist" => res st (ids (slistToList st.s FUEL a))
       | "hhead_init" => res { st with hh := hlistHeadInit st.hh a } "ok"
       | "hnode_init" => res { st with hh := hlistNodeInit st.hh a } "ok"
